@@ -93,11 +93,13 @@ Section Sw.
     end.
 
   (* the members of one struct, part after part. [acur]: alignof of the current part struct (of the
-     struct itself for the first part), [base]: `payload` of the current part, [offs]: the raw offsets *)
-  Fixpoint sw_fields (astruct : Z) (fs : list field) (ms : list pcm) (ps : list Z) (offs : list (Z * Z * Z))
+     struct itself for the first part), [base]: `payload` of the current part, [offs]: the raw offsets,
+     [sizeofX]: sizeof of the whole raw struct, [plast]: the padding prophyc gave the last member (a
+     manual padding member of the last part when positive) *)
+  Fixpoint sw_fields (astruct sizeofX plast : Z) (fs : list field) (ms : list pcm) (offs : list (Z * Z * Z))
            (seen : list Z) (later : bool) (acur base : Z) (data : bytes) : option (bytes * Z) :=
-    match fs, ms, ps, offs with
-    | f :: fr, m :: mr, p :: pr, (_, off, optoff) :: ofr =>
+    match fs, ms, offs with
+    | f :: fr, m :: mr, (_, off, optoff) :: ofr =>
         let a := base + off in
         let top (r : Z) := if later then cpp_align astruct r else r in      (* return cast of X ptr (swap(partN)) *)
         match fr with
@@ -110,7 +112,9 @@ Section Sw.
               | Some (d, r, _) =>
                   if pm_part_ends m
                   then Some (d, top (cpp_align acur r))                     (* return cast to name ptr (swap...(...)) *)
-                  else Some (d, top (base + cpp_nearest acur (off + pm_size m + Z.max 0 p)))   (* return payload + 1 *)
+                  else if later
+                  then Some (d, top (base + cpp_nearest acur (off + pm_size m + Z.max 0 plast)))   (* return payload + 1: sizeof(X::partN) *)
+                  else Some (d, base + sizeofX)                                                    (* return payload + 1: sizeof(X) *)
               | None => None
               end
         | _ =>
@@ -120,12 +124,12 @@ Section Sw.
                 then
                   let r' := if later then cpp_align acur r else r in        (* what swap(partN) returns / gen_member(main[-1]) *)
                   let anext := pc_part_max mr in                            (* PROPHY_STRUCT(part[0].alignment) *)
-                  sw_fields astruct fr mr pr ofr (seen ++ [rec]) true anext (cpp_align anext r') d
-                else sw_fields astruct fr mr pr ofr (seen ++ [rec]) later acur base d
+                  sw_fields astruct sizeofX plast fr mr ofr (seen ++ [rec]) true anext (cpp_align anext r') d
+                else sw_fields astruct sizeofX plast fr mr ofr (seen ++ [rec]) later acur base d
             | None => None
             end
         end
-    | _, _, _, _ => None
+    | _, _, _ => None
     end.
 
   Fixpoint sw_arm (arms : list (Z * ty)) (disc : Z) (data : bytes) (pos : Z) : option bytes :=
@@ -141,7 +145,7 @@ End Sw.
 Fixpoint cpp_swap (e : endian) (t : ty) (data : bytes) (pos : Z) {struct t} : option (bytes * Z) :=
   match t with
   | TStruct fs =>
-      sw_fields e (cpp_swap e) (pc_align t) fs (map (pc_member pc_size pc_align pc_kind) fs) (pc_paddings fs)
+      sw_fields e (cpp_swap e) (pc_align t) (pc_size t) (last (pc_paddings fs) 0) fs (map (pc_member pc_size pc_align pc_kind) fs)
                 (pc_raw_layout fs) [] false (pc_align t) pos data
   | TUnion arms =>
       let discpad := if pc_disc_size <? pc_align t then pc_align t - pc_disc_size else 0 in
@@ -158,4 +162,26 @@ Fixpoint cpp_swap (e : endian) (t : ty) (data : bytes) (pos : Z) {struct t} : op
       | None => None
       end
   | _ => None
+  end.
+
+(* ---- the schemas outside the known finding KF-C: no block (part) after the first that ends with a
+   dynamic member has a greater alignment than the block that follows it — in the struct itself and in
+   every type it is built from (tools/findings_predicates.py swap_part_over_aligned is the same test) ---- *)
+Fixpoint kfc_fields (fs : list field) (later : bool) (acur : Z) : bool :=
+  match fs with
+  | [] => true
+  | f :: r =>
+      match r with
+      | [] => true
+      | _ => if ends_block f
+             then (negb later || (acur <=? blockal r)) && kfc_fields r true (blockal r)
+             else kfc_fields r later acur
+      end
+  end.
+
+Fixpoint kfc_free (t : ty) : bool :=
+  match t with
+  | TStruct fs => kfc_fields fs false 1 && forallb (fun f => kfc_free (snd f)) fs
+  | TUnion arms => forallb (fun a => kfc_free (snd a)) arms
+  | _ => true
   end.
